@@ -52,10 +52,7 @@ type MakeString struct {
 // Call the function with the arguments provided.
 func (f *MakeString) Call(s *slip.Scope, args slip.List, depth int) slip.Object {
 	slip.CheckArgCount(s, depth, f, args, 1, 5)
-	size, ok := args[0].(slip.Fixnum)
-	if !ok || size < 0 {
-		slip.TypePanic(s, depth, "size", args[0], "fixnum")
-	}
+	size := slip.CheckDimension(s, depth, "size", args[0])
 	var c slip.Character
 	if 1 < len(args) {
 		for pos := 1; pos < len(args); pos += 2 {
